@@ -7,7 +7,7 @@ import ast
 from typing import Dict, List, Optional, Set, Tuple
 
 from .. import oneshot
-from ..core import AnalysisError, ClassInfo, FuncInfo, Repo, attr_chain, call_name, const_value, is_const, unparse, walk_no_nested
+from ..core import AnalysisError, ClassInfo, FuncInfo, Repo, attr_chain, call_name, const_value, deviates, is_const, unparse, walk_no_nested
 from ..purity import Purity
 from ..report import Ctx
 from ..skelrules import check_skeleton
@@ -583,7 +583,8 @@ def check_fold(ctx: Ctx, fi: FuncInfo) -> None:
     good_operand = isinstance(operand, ast.Call) and call_name(operand) and call_name(operand)[-1] == "_insertion_encodable_properties" and len(operand.args) == 1 and (
         unparse(operand.args[0]) == lv or (isinstance(operand.args[0], ast.Call) and call_name(operand.args[0]) == (lv, "rotate")))
     if not good_operand:
-        ctx.violation("C13-X2", fi, upd, f"fold accumulates {unparse(operand)[:70]}, not the run-shape properties of each basis element", robust=True)
+        deviates(ctx, "C13-X2", fi, upd, unparse(operand), [f"InsertionEncodablePerms._insertion_encodable_properties({lv})", f"InsertionEncodablePerms._insertion_encodable_properties({lv}.rotate())"],
+                 f"fold accumulates {unparse(operand)[:70]}, not the run-shape properties of each basis element")
         return
     ctx.ok("C13-X2", fi.where, "fold: OR of the per-element properties over the basis, True at full mask, False at exhaustion", loop, fi)
 
